@@ -191,6 +191,44 @@ func c09Regen(c *core.Ctx) {
 		c.Count("generator_executions", 1)
 	}
 	c.Count("spec_files", float64(specFiles))
+	compareGenerated(c, scratch, "generated_*.go", checked)
+	if len(c.Res.Violations) > 0 {
+		return
+	}
+	// "the output of the generators" must be ONE output: a generator whose result depends on map iteration order
+	// reproduces the checked-in file in most runs and something else (possibly something that does not compile) in
+	// the others. Regenerate every wrapper several more times and require the same bytes every time.
+	rounds := 16
+	if c.Tier == "thorough" {
+		rounds = 64
+	}
+	for k := 0; k < rounds && len(c.Res.Violations) == 0; k++ {
+		for _, f := range listFiles(filepath.Join(scratch, "models"), "*.go") {
+			if strings.HasPrefix(filepath.Base(f), "generated_") {
+				continue
+			}
+			b, _ := os.ReadFile(filepath.Join(scratch, "models", f))
+			if !bytes.Contains(b, []byte("OW-SPEC")) {
+				continue
+			}
+			if out, err := runIn(scratch, env, filepath.Join(bin, "ow-specgen"), "./"+filepath.Join("models", f)); err != nil {
+				c.Violate("generator-fails", f, fmt.Sprintf("%v %s", err, out))
+			}
+		}
+		for _, f := range checked {
+			name := strings.TrimSuffix(strings.TrimPrefix(filepath.Base(f), "generated_"), ".go")
+			if fm := sim.Catalog[name]; fm != nil && len(fm().Description().Dimensions) >= 2 {
+				continue // the unchanged generator orders two or more dimensions by map iteration (handled below)
+			}
+			a, _ := os.ReadFile(filepath.Join(repoDir, f))
+			b, _ := os.ReadFile(filepath.Join(scratch, f))
+			if !bytes.Equal(a, b) {
+				c.Violate("generator-not-deterministic", f, fmt.Sprintf("regeneration %d of the same spec gives other bytes than the first one (and than the checked-in file): %s", k+2, firstDiffLine(a, b)))
+				break
+			}
+		}
+		c.Count("repeated_regenerations_compared", float64(len(checked)))
+	}
 	// models with >= 2 dimensions: map-order dependent output; re-run until a match or 64 runs
 	multiDim := map[string]bool{}
 	for name, f := range sim.Catalog {
